@@ -317,6 +317,10 @@ func run(ctx *Ctx, f propFn, evidence string) (code int) {
 // importSibling runs a sibling property's rule set on the same program and imports the obligations of the selected rules
 // under a rule id of the importing property: properties that rest on one mechanism share the rules that guard it.
 func importSibling(c *Ctx, sibling string, asRule string, keep func(rule string) bool) {
+	importSiblingWhere(c, sibling, asRule, keep, nil)
+}
+
+func importSiblingWhere(c *Ctx, sibling string, asRule string, keep func(rule string) bool, keepC func(construct string) bool) {
 	f, ok := props[sibling]
 	if !ok {
 		c.R.Und(asRule, "sibling rules "+sibling, "", "sibling property not registered")
@@ -330,5 +334,5 @@ func importSibling(c *Ctx, sibling string, asRule string, keep func(rule string)
 		c.k2, c.k2err = sc.k2, sc.k2err
 	}
 	c.R.verifDir = c.Verif
-	c.R.Import(sub, asRule, keep)
+	c.R.ImportWhere(sub, asRule, keep, keepC)
 }
